@@ -137,3 +137,50 @@ Definition resolve_token (acls_enabled : bool) (cls : secret_class) (env : nat -
        | SecLocal => (OLocal, cache)
        | SecPlain => resolve_loop env down max_retries 0 cache None
        end.
+
+(* ------------------------------------------------------------------------------------ *)
+(* The authorizer of the runs of a blocking query (agent/blockingquery.Query re-runs the   *)
+(* endpoint's query function on the same reply each time the watched data changes)         *)
+(* ------------------------------------------------------------------------------------ *)
+
+(* a resolver whose clock shows [now] on every attempt *)
+Definition env_at (bk : bk_out) (fresh : bool) (rpc : rpc_out) (pol : pol_out) (now : N) : nat -> attempt :=
+  fun _ => Attempt bk fresh rpc pol now.
+
+(* what authorizes one run of the query function *)
+Inductive run_auth := ByToken (t : ident) | ByOther | RunRefused.
+
+Definition auth_of (o : outcome) : run_auth :=
+  match o with
+  | OGranted t => ByToken t
+  | OErr _ | ORootDenied => RunRefused
+  | OManageAll | OLocal | ODown => ByOther
+  end.
+
+(* style "held" (Catalog.ListServices, KVS.List, Session.List, ...): the endpoint calls
+   ResolveTokenAndDefaultMeta once, before blockingQuery, and the closure keeps the authorizer;
+   the runs happen at [times]. *)
+Definition blocking_held (first : outcome) (times : list N) : list run_auth :=
+  match auth_of first with
+  | RunRefused => []                                  (* the endpoint returns the error at once *)
+  | a => map (fun _ => a) times
+  end.
+
+(* style "reresolve" (Catalog.ListNodes, Internal.NodeDump, ...): the closure calls
+   filterACL(token, reply), i.e. ResolveToken, in every run; a refusal ends the query. *)
+Fixpoint blocking_reresolve (resolve_at : N -> outcome) (times : list N) : list run_auth :=
+  match times with
+  | [] => []
+  | now :: rest =>
+    match auth_of (resolve_at now) with
+    | RunRefused => [RunRefused]
+    | a => a :: blocking_reresolve resolve_at rest
+    end
+  end.
+
+(* rpc.go maskResultsFilteredByACLs (run by SetQueryMeta after every run of the function) *)
+Definition mask_flag (token_blank resolve_ok anonymous flag : bool) : bool :=
+  if token_blank then false
+  else if negb resolve_ok then false
+  else if anonymous then false
+  else flag.
